@@ -1,0 +1,593 @@
+// Verification contracts (comment-only, compiled only with the "verif" build tag; read by /verif/govc).
+
+//go:build verif
+// +build verif
+
+package state
+
+// Contracts for snapshot / revert (statedb.go, journal.go) — property C09.
+
+// ---------------------------------------------------------------------------------------------------------------
+// Clause 1 of C09: revision bookkeeping. `validRevisions` / `valValidRevisions` are two stacks of (id, journal length),
+// one per journal. Representation invariant `c09Aligned`:
+//   same length, separate backing arrays, pointwise the same ids, ids strictly increasing and below nextRevisionId,
+//   journal indexes non-decreasing and within the respective journal.
+// The quantifiers range over ABSOLUTE positions p of the backing arrays (`elems(s)[p]`, off(s) <= p < off(s)+len(s)) so that
+// the solvers' triggers contain no arithmetic (relative `s[i]` is `elems(s)[off(s)+i]`: see engine_requests/C09.md R1).
+
+//@ spec func c09InVR(st: *StateDB, p: int) bool = off(st.validRevisions) <= p && p < off(st.validRevisions) + len(st.validRevisions)
+//@ spec func c09InVV(st: *StateDB, p: int) bool = off(st.valValidRevisions) <= p && p < off(st.valValidRevisions) + len(st.valValidRevisions)
+//@ spec func c09D(st: *StateDB) int = off(st.valValidRevisions) - off(st.validRevisions)
+
+// same length, separate backing arrays
+//@ spec func c09Sep(st: *StateDB) bool = base(st.validRevisions) != base(st.valValidRevisions) || base(st.validRevisions) == 0
+//@ spec func c09Shape(st: *StateDB) bool = len(st.validRevisions) == len(st.valValidRevisions) && c09Sep(st)
+// the k-th entries of both stacks carry the same id (stated in both directions: one instance per stack element)
+//@ spec func c09SameIds(st: *StateDB) bool =
+//@     (forall p: int :: { elems(st.validRevisions)[p] } c09InVR(st, p) ==> elems(st.validRevisions)[p].id == elems(st.valValidRevisions)[p + c09D(st)].id) &&
+//@     (forall q: int :: { elems(st.valValidRevisions)[q] } c09InVV(st, q) ==> elems(st.valValidRevisions)[q].id == elems(st.validRevisions)[q - c09D(st)].id)
+// ids strictly increasing and below the next id to be handed out
+//@ spec func c09Sorted(st: *StateDB) bool =
+//@     (forall p: int, q: int :: { elems(st.validRevisions)[p], elems(st.validRevisions)[q] } c09InVR(st, p) && c09InVR(st, q) && p < q ==> elems(st.validRevisions)[p].id < elems(st.validRevisions)[q].id) &&
+//@     (forall p: int :: { elems(st.validRevisions)[p] } c09InVR(st, p) ==> elems(st.validRevisions)[p].id < st.nextRevisionId)
+// journal indexes: non-decreasing along each stack, and within the journal they index
+//@ spec func c09Idx(st: *StateDB) bool =
+//@     (forall p: int, q: int :: { elems(st.validRevisions)[p], elems(st.validRevisions)[q] } c09InVR(st, p) && c09InVR(st, q) && p < q ==> elems(st.validRevisions)[p].journalIndex <= elems(st.validRevisions)[q].journalIndex) &&
+//@     (forall p: int :: { elems(st.validRevisions)[p] } c09InVR(st, p) ==> 0 <= elems(st.validRevisions)[p].journalIndex && elems(st.validRevisions)[p].journalIndex <= len(st.journal.entries))
+//@ spec func c09ValIdx(st: *StateDB) bool =
+//@     (forall p: int, q: int :: { elems(st.valValidRevisions)[p], elems(st.valValidRevisions)[q] } c09InVV(st, p) && c09InVV(st, q) && p < q ==> elems(st.valValidRevisions)[p].journalIndex <= elems(st.valValidRevisions)[q].journalIndex) &&
+//@     (forall p: int :: { elems(st.valValidRevisions)[p] } c09InVV(st, p) ==> 0 <= elems(st.valValidRevisions)[p].journalIndex && elems(st.valValidRevisions)[p].journalIndex <= len(st.validatorJournal.entries))
+
+//@ spec func c09Aligned(st: *StateDB) bool = c09Shape(st) && c09SameIds(st) && c09Sorted(st) && c09Idx(st) && c09ValIdx(st)
+
+//@ func (*StateDB).Snapshot props C09
+//@ panics none
+//@ requires st != nil && st.journal != nil && st.validatorJournal != nil && c09Aligned(st)
+//@ requires st.nextRevisionId < 2^62
+//@ modifies st.nextRevisionId, st.validRevisions, st.valValidRevisions, elems(st.validRevisions), elems(st.valValidRevisions)
+//@ ensures [aligned-shape] c09Shape(st)
+//@ ensures [aligned-ids] c09SameIds(st)
+//@ ensures [aligned-sorted] c09Sorted(st)
+//@ ensures [aligned-idx] c09Idx(st)
+//@ ensures [aligned-validx] c09ValIdx(st)
+//@ ensures [id] result == old(st.nextRevisionId) && st.nextRevisionId == result + 1
+//@ ensures [pushed] len(st.validRevisions) == old(len(st.validRevisions)) + 1 && st.validRevisions[len(st.validRevisions) - 1].id == result &&
+//@     st.validRevisions[len(st.validRevisions) - 1].journalIndex == len(st.journal.entries) &&
+//@     st.valValidRevisions[len(st.valValidRevisions) - 1].id == result &&
+//@     st.valValidRevisions[len(st.valValidRevisions) - 1].journalIndex == len(st.validatorJournal.entries)
+//@ ensures [older-kept] forall i: int :: 0 <= i && i < old(len(st.validRevisions)) ==>
+//@     st.validRevisions[i] == old(st.validRevisions[i]) && st.valValidRevisions[i] == old(st.valValidRevisions[i])
+
+// ---------------------------------------------------------------------------------------------------------------
+// Clause 3 of C09: the journal. Well-formed journal: a dirties map exists, no entry is a nil interface.
+//@ spec func c09InEntries(j: *journal, p: int) bool = off(j.entries) <= p && p < off(j.entries) + len(j.entries)
+//@ spec func c09JournalWF(j: *journal) bool =
+//@     j != nil && j.dirties != nil && (forall p: int :: { elems(j.entries)[p] } c09InEntries(j, p) ==> elems(j.entries)[p] != nil)
+// The two journals of a state: distinct objects with distinct dirty maps, both well formed (established by New / Copy / clearJournalAndRefund).
+//@ spec func c09StateOK(st: *StateDB) bool =
+//@     st != nil && c09JournalWF(st.journal) && c09JournalWF(st.validatorJournal) && st.journal != st.validatorJournal && st.journal.dirties != st.validatorJournal.dirties
+
+// Two-state frame "the undo machinery itself is not touched": revision stacks, next id, both journals' entry lists and dirty counts.
+// Every journalEntry.revert has this frame (each of the 18 implementations is verified against it below);
+// for the dynamically dispatched call in journal.revert it is the trusted contract of the interface method.
+//@ spec func c09BookKept(s: *StateDB) bool =
+//@     s.validRevisions == old(s.validRevisions) && s.valValidRevisions == old(s.valValidRevisions) && s.nextRevisionId == old(s.nextRevisionId) &&
+//@     elems(s.validRevisions) == old(elems(s.validRevisions)) && elems(s.valValidRevisions) == old(elems(s.valValidRevisions)) &&
+//@     s.journal == old(s.journal) && s.validatorJournal == old(s.validatorJournal) &&
+//@     s.journal.entries == old(s.journal.entries) && elems(s.journal.entries) == old(elems(s.journal.entries)) &&
+//@     s.validatorJournal.entries == old(s.validatorJournal.entries) && elems(s.validatorJournal.entries) == old(elems(s.validatorJournal.entries)) &&
+//@     s.journal.dirties == old(s.journal.dirties) && mapdom(s.journal.dirties) == old(mapdom(s.journal.dirties)) && mapval(s.journal.dirties) == old(mapval(s.journal.dirties)) &&
+//@     s.validatorJournal.dirties == old(s.validatorJournal.dirties) && mapdom(s.validatorJournal.dirties) == old(mapdom(s.validatorJournal.dirties)) &&
+//@     mapval(s.validatorJournal.dirties) == old(mapval(s.validatorJournal.dirties))
+
+//@ func (journalEntry).revert props C09
+//@ trusted
+//@ requires arg0 != nil
+//@ modifies all
+//@ ensures c09BookKept(arg0)
+
+// Every implementation of dirtied returns a stored pointer or nil (journal.go): no effect.
+//@ func (journalEntry).dirtied props C09
+//@ trusted
+//@ pure
+
+// journal.revert(statedb, snapshot): the entries [snapshot, len) are undone last first (the loop starts at the last entry, every
+// call is made on the entry at the loop index, the loop ends below `snapshot`); the list is cut to its first `snapshot` entries,
+// which are untouched; the other journal and the revision stacks are untouched.
+// Ghost c09Undone counts the calls of an entry's revert: exactly len - snapshot of them ("each entry once").
+//@ ghost var c09Undone: int
+//@ func (*journal).revert props C09
+//@ panics none
+//@ requires c09StateOK(statedb) && (j == statedb.journal || j == statedb.validatorJournal)
+//@ requires [snapshot-in-range] 0 <= snapshot && snapshot <= len(j.entries)
+//@ modifies all, c09Undone
+//@ let st = statedb
+//@ let n = len(j.entries)
+//@ ghost after call (journalEntry).revert: c09Undone := c09Undone + 1
+//@ assert before call (journalEntry).revert: [last-first] snapshot <= i && i < n && recv == old(elems(j.entries))[old(off(j.entries)) + i]
+//@ assert before return: [all-undone] i == snapshot - 1
+//@ loop i invariant [start-at-last] entry(i) == n - 1
+//@ loop i invariant [range] snapshot - 1 <= i && i < n
+//@ loop i invariant [count] c09Undone == old(c09Undone) + n - 1 - i
+//@ loop i invariant [entries-kept] j.entries == old(j.entries) && elems(j.entries) == old(elems(j.entries)) && j.dirties == old(j.dirties)
+//@ loop i invariant [stacks-kept] st.validRevisions == old(st.validRevisions) && st.valValidRevisions == old(st.valValidRevisions) && st.nextRevisionId == old(st.nextRevisionId) &&
+//@     elems(st.validRevisions) == old(elems(st.validRevisions)) && elems(st.valValidRevisions) == old(elems(st.valValidRevisions)) &&
+//@     st.journal == old(st.journal) && st.validatorJournal == old(st.validatorJournal)
+//@ loop i invariant [other-journal-kept] st.journal.entries == old(st.journal.entries) && st.validatorJournal.entries == old(st.validatorJournal.entries) &&
+//@     elems(st.journal.entries) == old(elems(st.journal.entries)) && elems(st.validatorJournal.entries) == old(elems(st.validatorJournal.entries)) &&
+//@     st.journal.dirties == old(st.journal.dirties) && st.validatorJournal.dirties == old(st.validatorJournal.dirties)
+//@ loop i invariant [other-dirties-kept] (st.journal != j ==> mapdom(st.journal.dirties) == old(mapdom(st.journal.dirties)) && mapval(st.journal.dirties) == old(mapval(st.journal.dirties))) &&
+//@     (st.validatorJournal != j ==> mapdom(st.validatorJournal.dirties) == old(mapdom(st.validatorJournal.dirties)) && mapval(st.validatorJournal.dirties) == old(mapval(st.validatorJournal.dirties)))
+//@ loop i decreases i - snapshot + 1
+//@ ensures [undone-count] c09Undone == old(c09Undone) + n - snapshot
+//@ ensures [cut] len(j.entries) == snapshot && base(j.entries) == old(base(j.entries)) && off(j.entries) == old(off(j.entries)) && cap(j.entries) == old(cap(j.entries))
+//@ ensures [prefix-kept] elems(st.journal.entries) == old(elems(st.journal.entries)) && elems(st.validatorJournal.entries) == old(elems(st.validatorJournal.entries))
+//@ ensures [wf] c09StateOK(st)
+//@ ensures [stacks-kept] st.validRevisions == old(st.validRevisions) && st.valValidRevisions == old(st.valValidRevisions) && st.nextRevisionId == old(st.nextRevisionId) &&
+//@     elems(st.validRevisions) == old(elems(st.validRevisions)) && elems(st.valValidRevisions) == old(elems(st.valValidRevisions)) &&
+//@     st.journal == old(st.journal) && st.validatorJournal == old(st.validatorJournal)
+//@ ensures [other-journal-kept] (st.journal != j ==> st.journal.entries == old(st.journal.entries) && mapdom(st.journal.dirties) == old(mapdom(st.journal.dirties)) && mapval(st.journal.dirties) == old(mapval(st.journal.dirties))) &&
+//@     (st.validatorJournal != j ==> st.validatorJournal.entries == old(st.validatorJournal.entries) && mapdom(st.validatorJournal.dirties) == old(mapdom(st.validatorJournal.dirties)) && mapval(st.validatorJournal.dirties) == old(mapval(st.validatorJournal.dirties)))
+//@ ensures [dirties-kept] st.journal.dirties == old(st.journal.dirties) && st.validatorJournal.dirties == old(st.validatorJournal.dirties)
+
+//@ func (*StateDB).RevertToSnapshot props C09
+//@ panics none
+//@ requires c09StateOK(st) && c09Aligned(st)
+//@ requires [valid-snapshot] exists k: int :: 0 <= k && k < len(st.validRevisions) && st.validRevisions[k].id == revid
+//@ modifies all, c09Undone
+//@ ensures [aligned-shape] c09Shape(st)
+//@ ensures [aligned-ids] c09SameIds(st)
+//@ ensures [aligned-sorted] c09Sorted(st)
+//@ ensures [aligned-idx] c09Idx(st)
+//@ ensures [aligned-validx] c09ValIdx(st)
+//@ ensures [state-ok] c09StateOK(st)
+//@ ensures [cut] forall i: int :: 0 <= i && i < len(st.validRevisions) ==> st.validRevisions[i].id < revid
+// k = the position of the snapshot: both stacks keep exactly their first k entries, both journals are cut to the lengths recorded
+// at snapshot time, and exactly as many entries as were appended since then have been undone.
+//@ ensures [cut-at-snapshot] forall k: int :: 0 <= k && k < old(len(st.validRevisions)) && old(st.validRevisions[k].id) == revid ==>
+//@     len(st.validRevisions) == k && len(st.valValidRevisions) == k &&
+//@     len(st.journal.entries) == old(st.validRevisions[k].journalIndex) && len(st.validatorJournal.entries) == old(st.valValidRevisions[k].journalIndex) &&
+//@     c09Undone == old(c09Undone) + (old(len(st.journal.entries)) - old(st.validRevisions[k].journalIndex)) + (old(len(st.validatorJournal.entries)) - old(st.valValidRevisions[k].journalIndex))
+//@ ensures [stacks-prefix] base(st.validRevisions) == old(base(st.validRevisions)) && off(st.validRevisions) == old(off(st.validRevisions)) &&
+//@     base(st.valValidRevisions) == old(base(st.valValidRevisions)) && off(st.valValidRevisions) == old(off(st.valValidRevisions)) &&
+//@     elems(st.validRevisions) == old(elems(st.validRevisions)) && elems(st.valValidRevisions) == old(elems(st.valValidRevisions)) &&
+//@     st.nextRevisionId == old(st.nextRevisionId)
+//@ ensures [journals-prefix] st.journal == old(st.journal) && st.validatorJournal == old(st.validatorJournal) &&
+//@     base(st.journal.entries) == old(base(st.journal.entries)) && off(st.journal.entries) == old(off(st.journal.entries)) && elems(st.journal.entries) == old(elems(st.journal.entries)) &&
+//@     base(st.validatorJournal.entries) == old(base(st.validatorJournal.entries)) && off(st.validatorJournal.entries) == old(off(st.validatorJournal.entries)) &&
+//@     elems(st.validatorJournal.entries) == old(elems(st.validatorJournal.entries))
+
+// ---------------------------------------------------------------------------------------------------------------
+// End of a transaction: Finalise -> clearJournalAndRefund start fresh journals; every open snapshot becomes invalid,
+// i.e. BOTH stacks must be emptied ("for snapshots taken in any transaction of a block").
+// A fresh journal (newJournal, inlined): no entries, an empty non-nil dirties map.
+
+//@ func (*StateDB).clearJournalAndRefund props C09
+//@ panics none
+//@ requires st != nil && c09Sep(st)          // the stacks are not aligned here in general (Reset calls this on any state), only separate
+//@ modifies st.journal, st.validatorJournal, st.validRevisions, st.valValidRevisions, st.refund
+// History: before repo commit 74b1e38 (proposed_fixes/C09/revision_stacks.diff) the code reset validRevisions only; [aligned-shape],
+// [aligned-ids], [aligned-validx] and [no-open-val-snapshot] failed (replay confirmed) and a nested revert in the next transaction
+// panicked (probe in proposed_fixes/C09/revision_stacks.md). Mutants clear_forgets_val_stack / revert_cuts_val_stack_with_account_index
+// re-introduce the two halves of the defect.
+//@ ensures [aligned-shape] c09Shape(st)
+//@ ensures [aligned-ids] c09SameIds(st)
+//@ ensures [aligned-validx] c09ValIdx(st)
+//@ ensures [no-open-val-snapshot] len(st.valValidRevisions) == 0
+//@ ensures [aligned-sorted] c09Sorted(st)
+//@ ensures [aligned-idx] c09Idx(st)
+//@ ensures [state-ok] c09StateOK(st)
+//@ ensures [journals-fresh] fresh(st.journal) && fresh(st.validatorJournal) && len(st.journal.entries) == 0 && len(st.validatorJournal.entries) == 0 &&
+//@     st.journal.dirties != nil && st.validatorJournal.dirties != nil && len(st.journal.dirties) == 0 && len(st.validatorJournal.dirties) == 0
+//@ ensures [no-open-snapshot] len(st.validRevisions) == 0
+//@ ensures [refund-reset] st.refund == 0
+//@ ensures [ids-monotone] st.nextRevisionId == old(st.nextRevisionId)
+
+// ---------------------------------------------------------------------------------------------------------------
+// Clause 2 of C09: undo pairs. For each journalled mutator m with entry kind e:
+//   m appends exactly one entry of kind e that records the observable's previous value (`[journalled]`), and
+//   e.revert stores the recorded value back (`[restored]`) and does not touch the undo machinery (`[book-kept]`).
+// Chained: after m and the revert of the entry it appended, the observable has the value it had before m.
+
+// Live object lookup. The trie / RLP path of a cache miss is outside the heap model (C13, C14): the callees on that path are
+// declared effect-free below (their results are unconstrained), which is all the cached case needs.
+//@ effectfree github.com/youchainhq/go-youchain/rlp.DecodeBytes
+//@ func (Trie).TryGet props C09
+//@ trusted
+//@ pure
+
+// An account is live in this transaction: cached, not nil, not deleted.
+//@ spec func c09Live(s: *StateDB, a: common.Address) bool = in(a, s.stateObjects) && s.stateObjects[a] != nil && !s.stateObjects[a].deleted
+
+//@ func (*StateDB).getDeletedStateObject props C09
+//@ panics none
+//@ requires st != nil && st.stateObjects != nil
+//@ modifies st.dbErr, mapof(st.stateObjects)
+//@ ensures [cached] old(in(addr, st.stateObjects) && st.stateObjects[addr] != nil) ==>
+//@     result == old(st.stateObjects[addr]) && mapdom(st.stateObjects) == old(mapdom(st.stateObjects)) && mapval(st.stateObjects) == old(mapval(st.stateObjects)) && st.dbErr == old(st.dbErr)
+//@ ensures [loaded] result != nil && !old(in(addr, st.stateObjects) && st.stateObjects[addr] != nil) ==> fresh(result) && st.stateObjects[addr] == result
+
+//@ func (*StateDB).getStateObject props C09
+//@ panics none
+//@ requires st != nil && st.stateObjects != nil
+//@ modifies st.dbErr, mapof(st.stateObjects)
+//@ ensures [live] old(c09Live(st, addr)) ==>
+//@     stateObject == old(st.stateObjects[addr]) && mapdom(st.stateObjects) == old(mapdom(st.stateObjects)) && mapval(st.stateObjects) == old(mapval(st.stateObjects)) && st.dbErr == old(st.dbErr)
+//@ ensures [deleted] old(in(addr, st.stateObjects) && st.stateObjects[addr] != nil && st.stateObjects[addr].deleted) ==>
+//@     stateObject == nil && mapdom(st.stateObjects) == old(mapdom(st.stateObjects)) && mapval(st.stateObjects) == old(mapval(st.stateObjects)) && st.dbErr == old(st.dbErr)
+
+// (*journal).append has no C09 contract on purpose: its parameter is called `entry`, a contract keyword, so the appended value cannot be
+// named in a contract (engine_requests/C09.md R4); being small and loop-free it is inlined into the mutators below.
+// The last entry of a journal.
+//@ spec func c09Last(j: *journal) journalEntry = j.entries[len(j.entries) - 1]
+
+// --- balance ---------------------------------------------------------------------------------------------------
+//@ func (*stateObject).SetBalance props C09
+//@ panics none
+//@ requires so != nil && so.db != nil && c09JournalWF(so.db.journal) && so.data.Balance != nil
+//@ let j = so.db.journal
+//@ modifies so.data.Balance, j.entries, elems(j.entries), mapof(j.dirties)
+//@ ensures [journalled] len(j.entries) == old(len(j.entries)) + 1 && hastype(c09Last(j), balanceChange) &&
+//@     *unbox(c09Last(j), balanceChange).account == so.address &&
+//@     fresh(unbox(c09Last(j), balanceChange).prev) && big(unbox(c09Last(j), balanceChange).prev) == old(big(so.data.Balance))
+//@ ensures [set] so.data.Balance == amount
+//@ ensures [wf] c09JournalWF(j)
+
+//@ func (balanceChange).revert props C09
+//@ panics none
+//@ requires s != nil && s.stateObjects != nil && ch.account != nil && c09Live(s, *ch.account)
+//@ let obj = s.stateObjects[*ch.account]
+//@ modifies s.dbErr, mapof(s.stateObjects), obj.data.Balance
+//@ ensures [restored] obj.data.Balance == ch.prev
+//@ ensures [objects-kept] mapdom(s.stateObjects) == old(mapdom(s.stateObjects)) && mapval(s.stateObjects) == old(mapval(s.stateObjects)) && s.dbErr == old(s.dbErr)
+//@ ensures [book-kept] c09BookKept(s)
+
+// --- nonce -----------------------------------------------------------------------------------------------------
+//@ func (*stateObject).SetNonce props C09
+//@ panics none
+//@ requires so != nil && so.db != nil && c09JournalWF(so.db.journal)
+//@ let j = so.db.journal
+//@ modifies so.data.Nonce, j.entries, elems(j.entries), mapof(j.dirties)
+//@ ensures [journalled] len(j.entries) == old(len(j.entries)) + 1 && hastype(c09Last(j), nonceChange) &&
+//@     *unbox(c09Last(j), nonceChange).account == so.address && unbox(c09Last(j), nonceChange).prev == old(so.data.Nonce)
+//@ ensures [set] so.data.Nonce == nonce
+//@ ensures [wf] c09JournalWF(j)
+
+//@ func (nonceChange).revert props C09
+//@ panics none
+//@ requires s != nil && s.stateObjects != nil && ch.account != nil && c09Live(s, *ch.account)
+//@ let obj = s.stateObjects[*ch.account]
+//@ modifies s.dbErr, mapof(s.stateObjects), obj.data.Nonce
+//@ ensures [restored] obj.data.Nonce == ch.prev
+//@ ensures [objects-kept] mapdom(s.stateObjects) == old(mapdom(s.stateObjects)) && mapval(s.stateObjects) == old(mapval(s.stateObjects)) && s.dbErr == old(s.dbErr)
+//@ ensures [book-kept] c09BookKept(s)
+
+// --- refund ----------------------------------------------------------------------------------------------------
+//@ func (*StateDB).AddRefund props C09
+//@ panics none
+//@ requires st != nil && c09JournalWF(st.journal)
+//@ let j = st.journal
+//@ modifies st.refund, j.entries, elems(j.entries), mapof(j.dirties)
+//@ ensures [journalled] len(j.entries) == old(len(j.entries)) + 1 && hastype(c09Last(j), refundChange) && unbox(c09Last(j), refundChange).prev == old(st.refund)
+//@ ensures [added] st.refund == wrap64(old(st.refund) + gas)
+//@ ensures [wf] c09JournalWF(j)
+
+// SubRefund panics by design when gas > refund ("below zero"): that is its documented precondition.
+//@ func (*StateDB).SubRefund props C09
+//@ panics none
+//@ requires st != nil && c09JournalWF(st.journal)
+//@ requires [enough-refund] gas <= st.refund
+//@ let j = st.journal
+//@ modifies st.refund, j.entries, elems(j.entries), mapof(j.dirties)
+//@ ensures [journalled] len(j.entries) == old(len(j.entries)) + 1 && hastype(c09Last(j), refundChange) && unbox(c09Last(j), refundChange).prev == old(st.refund)
+//@ ensures [subtracted] st.refund == old(st.refund) - gas
+//@ ensures [wf] c09JournalWF(j)
+
+//@ func (refundChange).revert props C09
+//@ panics none
+//@ requires s != nil
+//@ modifies s.refund
+//@ ensures [restored] s.refund == ch.prev
+//@ ensures [book-kept] c09BookKept(s)
+
+// --- logs ------------------------------------------------------------------------------------------------------
+//@ func (*StateDB).AddLog props C09
+//@ panics none
+//@ requires st != nil && c09JournalWF(st.journal) && st.logs != nil && log != nil
+//@ let j = st.journal
+//@ let h = st.thash
+//@ modifies st.logSize, mapof(st.logs), elems(st.logs[st.thash]), log.TxHash, log.BlockHash, log.TxIndex, log.Index, j.entries, elems(j.entries), mapof(j.dirties)
+//@ ensures [journalled] len(j.entries) == old(len(j.entries)) + 1 && hastype(c09Last(j), addLogChange) && unbox(c09Last(j), addLogChange).txhash == h
+//@ ensures [added] len(st.logs[h]) == old(len(st.logs[h])) + 1 && st.logs[h][len(st.logs[h]) - 1] == log && st.logSize == wrap64(old(st.logSize) + 1)
+//@ ensures [others-kept] forall k: common.Hash :: k != h ==> st.logs[k] == old(st.logs[k]) && in(k, st.logs) == old(in(k, st.logs))
+//@ ensures [wf] c09JournalWF(j)
+
+// revert of AddLog: the last log of that transaction hash is dropped (the key disappears with its last log), logSize goes back by one.
+//@ func (addLogChange).revert props C09
+//@ panics none
+//@ requires s != nil && s.logs != nil
+//@ requires [has-log] in(ch.txhash, s.logs) && len(s.logs[ch.txhash]) >= 1
+//@ modifies s.logSize, mapof(s.logs)
+//@ ensures [restored] len(s.logs[ch.txhash]) == old(len(s.logs[ch.txhash])) - 1 && s.logSize == wrap64(old(s.logSize) - 1) &&
+//@     (len(s.logs[ch.txhash]) > 0 ==> base(s.logs[ch.txhash]) == old(base(s.logs[ch.txhash])) && off(s.logs[ch.txhash]) == old(off(s.logs[ch.txhash])))
+//@ ensures [key-dropped] in(ch.txhash, s.logs) <==> old(len(s.logs[ch.txhash])) > 1
+//@ ensures [others-kept] forall k: common.Hash :: k != ch.txhash ==> s.logs[k] == old(s.logs[k]) && in(k, s.logs) == old(in(k, s.logs))
+//@ ensures [book-kept] c09BookKept(s)
+
+// --- suicide ---------------------------------------------------------------------------------------------------
+//@ func (*StateDB).Suicide props C09
+//@ panics none
+//@ requires st != nil && st.stateObjects != nil && c09JournalWF(st.journal)
+// the account is cached (the EVM only self-destructs the executing contract, which it has loaded); the trie-load path is not covered
+//@ requires [cached] in(addr, st.stateObjects) && st.stateObjects[addr] != nil && st.stateObjects[addr].data.Balance != nil
+//@ let j = st.journal
+//@ let obj = st.stateObjects[addr]
+//@ modifies st.dbErr, mapof(st.stateObjects), obj.suicided, obj.data.Balance, j.entries, elems(j.entries), mapof(j.dirties)
+//@ ensures [live] old(c09Live(st, addr)) ==> result && len(j.entries) == old(len(j.entries)) + 1 && hastype(c09Last(j), suicideChange) &&
+//@     *unbox(c09Last(j), suicideChange).account == addr && unbox(c09Last(j), suicideChange).prev == old(obj.suicided) &&
+//@     fresh(unbox(c09Last(j), suicideChange).prevbalance) && big(unbox(c09Last(j), suicideChange).prevbalance) == old(big(obj.data.Balance)) &&
+//@     obj.suicided && fresh(obj.data.Balance) && big(obj.data.Balance) == 0
+//@ ensures [absent-noop] !result ==> len(j.entries) == old(len(j.entries))
+//@ ensures [wf] c09JournalWF(j)
+
+//@ func (suicideChange).revert props C09
+//@ panics none
+//@ requires s != nil && s.stateObjects != nil && ch.account != nil && c09Live(s, *ch.account)
+//@ let obj = s.stateObjects[*ch.account]
+//@ modifies s.dbErr, mapof(s.stateObjects), obj.suicided, obj.data.Balance
+//@ ensures [restored] obj.suicided == ch.prev && obj.data.Balance == ch.prevbalance
+//@ ensures [objects-kept] mapdom(s.stateObjects) == old(mapdom(s.stateObjects)) && mapval(s.stateObjects) == old(mapval(s.stateObjects)) && s.dbErr == old(s.dbErr)
+//@ ensures [book-kept] c09BookKept(s)
+
+// --- delegation balance ----------------------------------------------------------------------------------------
+//@ func (*stateObject).SetDelegationBalance props C09
+//@ panics none
+//@ requires so != nil && so.db != nil && c09JournalWF(so.db.journal) && so.data.DelegationBalance != nil
+//@ let j = so.db.journal
+//@ modifies so.data.DelegationBalance, j.entries, elems(j.entries), mapof(j.dirties)
+//@ ensures [journalled] len(j.entries) == old(len(j.entries)) + 1 && hastype(c09Last(j), delegationBalanceChange) &&
+//@     *unbox(c09Last(j), delegationBalanceChange).account == so.address &&
+//@     fresh(unbox(c09Last(j), delegationBalanceChange).prev) && big(unbox(c09Last(j), delegationBalanceChange).prev) == old(big(so.data.DelegationBalance))
+//@ ensures [set] so.data.DelegationBalance == value
+//@ ensures [wf] c09JournalWF(j)
+
+//@ func (delegationBalanceChange).revert props C09
+//@ panics none
+//@ requires s != nil && s.stateObjects != nil && ch.account != nil && c09Live(s, *ch.account)
+//@ let obj = s.stateObjects[*ch.account]
+//@ modifies s.dbErr, mapof(s.stateObjects), obj.data.DelegationBalance
+//@ ensures [restored] obj.data.DelegationBalance == ch.prev
+//@ ensures [objects-kept] mapdom(s.stateObjects) == old(mapdom(s.stateObjects)) && mapval(s.stateObjects) == old(mapval(s.stateObjects)) && s.dbErr == old(s.dbErr)
+//@ ensures [book-kept] c09BookKept(s)
+
+// --- delegation list (the list is replaced, never edited in place: UpdateDelegationTo builds a fresh copy) ---------
+//@ func (delegationsChange).revert props C09
+//@ panics none
+//@ requires s != nil && s.stateObjects != nil && ch.account != nil && c09Live(s, *ch.account)
+//@ let obj = s.stateObjects[*ch.account]
+//@ modifies s.dbErr, mapof(s.stateObjects), obj.data.DelegationsHash, obj.delegations
+//@ ensures [restored] obj.delegations == ch.prevdlgs && obj.data.DelegationsHash == ch.prevhash
+//@ ensures [objects-kept] mapdom(s.stateObjects) == old(mapdom(s.stateObjects)) && mapval(s.stateObjects) == old(mapval(s.stateObjects)) && s.dbErr == old(s.dbErr)
+//@ ensures [book-kept] c09BookKept(s)
+
+// --- storage: the observable of a slot is the dirty value when there is one -----------------------------------------
+//@ func (*stateObject).setState props C09
+//@ panics none
+//@ requires [nonnil] so != nil && so.dirtyStorage != nil
+//@ modifies mapof(so.dirtyStorage)
+//@ ensures [set] in(key, so.dirtyStorage) && so.dirtyStorage[key] == value
+//@ ensures [other-slots-kept] forall k: common.Hash :: k != key ==> so.dirtyStorage[k] == old(so.dirtyStorage[k]) && in(k, so.dirtyStorage) == old(in(k, so.dirtyStorage))
+
+//@ func (storageChange).revert props C09
+//@ panics none
+//@ requires s != nil && s.stateObjects != nil && ch.account != nil && c09Live(s, *ch.account) && s.stateObjects[*ch.account].dirtyStorage != nil
+//@ let obj = s.stateObjects[*ch.account]
+//@ modifies s.dbErr, mapof(s.stateObjects), mapof(obj.dirtyStorage)
+//@ ensures [restored] in(ch.key, obj.dirtyStorage) && obj.dirtyStorage[ch.key] == ch.prevalue
+//@ ensures [other-slots-kept] forall k: common.Hash :: k != ch.key ==> obj.dirtyStorage[k] == old(obj.dirtyStorage[k]) && in(k, obj.dirtyStorage) == old(in(k, obj.dirtyStorage))
+//@ ensures [objects-kept] mapdom(s.stateObjects) == old(mapdom(s.stateObjects)) && mapval(s.stateObjects) == old(mapval(s.stateObjects)) && s.dbErr == old(s.dbErr)
+//@ ensures [book-kept] c09BookKept(s)
+
+// --- touch: nothing to undo ------------------------------------------------------------------------------------------
+//@ func (touchChange).revert props C09
+//@ panics none
+//@ modifies nothing
+//@ ensures [book-kept] c09BookKept(s)
+
+// --- account creation ------------------------------------------------------------------------------------------------
+//@ func (createObjectChange).revert props C09
+//@ panics none
+//@ requires s != nil && ch.account != nil
+//@ modifies mapof(s.stateObjects), mapof(s.stateObjectsDirty)
+//@ ensures [restored] !in(*ch.account, s.stateObjects) && !in(*ch.account, s.stateObjectsDirty)
+//@ ensures [others-kept] forall a: common.Address :: a != *ch.account ==> s.stateObjects[a] == old(s.stateObjects[a]) && in(a, s.stateObjects) == old(in(a, s.stateObjects))
+//@ ensures [book-kept] c09BookKept(s)
+
+//@ func (resetObjectChange).revert props C09
+//@ panics none
+//@ requires s != nil && s.stateObjects != nil && ch.prev != nil
+//@ modifies mapof(s.stateObjects)
+//@ ensures [restored] in(ch.prev.address, s.stateObjects) && s.stateObjects[ch.prev.address] == ch.prev
+//@ ensures [others-kept] forall a: common.Address :: a != ch.prev.address ==> s.stateObjects[a] == old(s.stateObjects[a]) && in(a, s.stateObjects) == old(in(a, s.stateObjects))
+//@ ensures [book-kept] c09BookKept(s)
+
+// --- preimages ---------------------------------------------------------------------------------------------------------
+//@ func (addPreimageChange).revert props C09
+//@ panics none
+//@ requires s != nil
+//@ modifies mapof(s.preimages)
+//@ ensures [restored] !in(ch.hash, s.preimages)
+//@ ensures [others-kept] forall k: common.Hash :: k != ch.hash ==> s.preimages[k] == old(s.preimages[k]) && in(k, s.preimages) == old(in(k, s.preimages))
+//@ ensures [book-kept] c09BookKept(s)
+
+// ---------------------------------------------------------------------------------------------------------------
+// Finalise (end of every transaction): marks / finalises the dirty objects, then starts fresh journals with no open snapshot.
+// Everything Snapshot / RevertToSnapshot need in the next transaction is re-established: c09StateOK and c09Aligned.
+
+//@ effectfree bytes.Equal
+//@ func (*stateObject).empty props C09
+//@ panics none
+//@ requires so != nil && so.data.Balance != nil
+//@ pure
+
+//@ func (*stateObject).finalise props C09
+//@ panics none
+//@ requires so != nil && so.pendingStorage != nil
+//@ modifies so.dirtyStorage, mapof(so.pendingStorage)
+//@ loop #1 invariant [other-maps-kept] forall m: Storage :: m != so.pendingStorage ==> mapdom(m) == old(mapdom(m)) && mapval(m) == old(mapval(m)) && len(m) == old(len(m))
+//@ ensures [dirty-fresh] so.dirtyStorage == old(so.dirtyStorage) || fresh(so.dirtyStorage)
+
+// Every cached account object is usable: not nil, has a balance and a pending-storage map (newObject establishes it).
+//@ spec func c09ObjectsWF(st: *StateDB) bool =
+//@     st.stateObjects != nil && (forall a: common.Address :: { st.stateObjects[a] } in(a, st.stateObjects) ==>
+//@         st.stateObjects[a] != nil && st.stateObjects[a].data.Balance != nil && st.stateObjects[a].pendingStorage != nil)
+
+//@ func (*StateDB).Finalise props C09
+//@ panics none
+//@ requires st != nil && c09Sep(st) && st.journal != nil && st.validatorJournal != nil && c09ObjectsWF(st)
+//@ requires st.stateObjectsPending != nil && st.stateObjectsDirty != nil && st.validatorObjectsDirty != nil
+//@ modifies all          // (the storage maps of all dirty objects: no `modifies` form for "every map of a type")
+//@ ensures [aligned-shape] c09Shape(st)
+//@ ensures [aligned-ids] c09SameIds(st)
+//@ ensures [aligned-sorted] c09Sorted(st)
+//@ ensures [aligned-idx] c09Idx(st)
+//@ ensures [aligned-validx] c09ValIdx(st)
+//@ ensures [state-ok] c09StateOK(st)
+//@ ensures [no-open-snapshot] len(st.validRevisions) == 0 && len(st.valValidRevisions) == 0
+//@ ensures [journals-empty] len(st.journal.entries) == 0 && len(st.validatorJournal.entries) == 0
+//@ ensures [refund-reset] st.refund == 0
+//@ ensures [ids-monotone] st.nextRevisionId == old(st.nextRevisionId)
+
+// ---------------------------------------------------------------------------------------------------------------
+// Withdraw queue (validator.go) and its two journal entry kinds.
+// The three validator-record kinds (validatorCreate/Update/DeleteChange.revert) are under C08's contracts (verif_contracts_c08.go):
+// their verified `modifies` clauses name statistics, live objects and index only, which is the [book-kept] frame for them.
+
+//@ spec func c09QueueWF(q: *WithdrawQueue) bool =
+//@     q != nil && (forall p: int :: { elems(q.Records)[p] } off(q.Records) <= p && p < off(q.Records) + len(q.Records) ==> elems(q.Records)[p] != nil)
+//@ spec func c09SameRecord(a: *WithdrawRecord, b: *WithdrawRecord) bool = a.Operator == b.Operator && a.Nonce == b.Nonce
+
+//@ func (*WithdrawQueue).Add props C09
+//@ panics none
+//@ requires q != nil
+//@ modifies q.Records, elems(q.Records)
+//@ ensures [appended] len(q.Records) == old(len(q.Records)) + 1 && q.Records[len(q.Records) - 1] == record
+//@ ensures [older-kept] forall i: int :: 0 <= i && i < old(len(q.Records)) ==> q.Records[i] == old(q.Records[i])
+
+// Delete removes the LAST record with the given (Operator, Nonce). It slices [:-1] when there is none:
+// "the record is in the queue" is a precondition ([present]); see findings_proposed/C09.json "withdraw-delete-absent".
+//@ func (*WithdrawQueue).Delete props C09
+//@ panics none
+//@ opt abstract-slices
+//@ requires c09QueueWF(q) && record != nil
+//@ requires [present] exists p: int :: off(q.Records) <= p && p < off(q.Records) + len(q.Records) && c09SameRecord(elems(q.Records)[p], record)
+//@ modifies q.Records, elems(q.Records)
+//@ loop deleted invariant [range] -1 <= deleted && deleted <= rangeindex && rangeindex < len(q.Records)
+//@ loop deleted invariant [kept] q.Records == old(q.Records) && elems(q.Records) == old(elems(q.Records))
+//@ loop deleted invariant [match] deleted >= 0 ==> c09SameRecord(elems(q.Records)[off(q.Records) + deleted], record)
+//@ loop deleted invariant [last-match] forall p: int :: { elems(q.Records)[p] } off(q.Records) <= p && p <= off(q.Records) + rangeindex && c09SameRecord(elems(q.Records)[p], record) ==> p <= off(q.Records) + deleted
+//@ ensures [one-removed] len(q.Records) == old(len(q.Records)) - 1
+
+// revert of AddWithdrawRecord: the record is deleted from the queue again.
+// Finding (findings_proposed/C09.json "withdraw-delete-absent"): the guard in the code is `queue.Len() > 0`, not "the record is in the
+// queue", and Delete slices [:-1] when it is not. The revert is therefore correct only under the explicit precondition
+// [record-still-queued] (it discharges Delete's [present] at the call site); that it holds whenever the entry is reverted is the journal
+// order argument (entries are undone last first), not machine-checked. Other run-time panics (trie path of getWithdrawQueue) ignored.
+//@ func (validatorAddUBDChange).revert props C09
+//@ panics ignored
+//@ requires s != nil && ch.prev != nil
+//@ requires [record-still-queued] hastype(s.withdrawQueue.v, *WithdrawQueue) && c09QueueWF(unbox(s.withdrawQueue.v, *WithdrawQueue)) &&
+//@     (exists p: int :: off(unbox(s.withdrawQueue.v, *WithdrawQueue).Records) <= p && p < off(unbox(s.withdrawQueue.v, *WithdrawQueue).Records) + len(unbox(s.withdrawQueue.v, *WithdrawQueue).Records) &&
+//@         c09SameRecord(elems(unbox(s.withdrawQueue.v, *WithdrawQueue).Records)[p], ch.prev))
+//@ modifies all
+//@ ensures [removed] len(unbox(s.withdrawQueue.v, *WithdrawQueue).Records) == old(len(unbox(s.withdrawQueue.v, *WithdrawQueue).Records)) - 1
+//@ ensures [book-kept] c09BookKept(s)
+
+// revert of RemoveWithdrawRecords (one entry per removed record): the record is in the queue again.
+// PENDING-FINDING (findings_proposed/C09.json "withdraw-revert-order"): the statement demands the queue as it was at snapshot time,
+// i.e. the record back at its ORIGINAL position; the entry does not record the position and the code appends at the end (probe:
+// [1 2 3] -> remove 0,1 -> revert -> [3 2 1]). Stated and proved: the record is back and the others keep their order.
+//@ func (validatorDelWithdrawChange).revert props C09
+//@ panics ignored
+//@ requires s != nil && hastype(s.withdrawQueue.v, *WithdrawQueue) && unbox(s.withdrawQueue.v, *WithdrawQueue) != nil
+//@ let q = unbox(s.withdrawQueue.v, *WithdrawQueue)
+//@ modifies all
+//@ ensures [re-added] len(q.Records) == old(len(q.Records)) + 1 && q.Records[len(q.Records) - 1] == ch.prev
+//@ ensures [others-keep-order] forall i: int :: 0 <= i && i < old(len(q.Records)) ==> q.Records[i] == old(q.Records[i])
+//@ // ensures [original-position] (not expressible: the entry would have to record the index) q.Records == the queue before RemoveWithdrawRecords
+//@ ensures [book-kept] c09BookKept(s)
+
+// getWithdrawQueue: cached queue, or (cache empty) one decoded from the validator trie — RLP / trie are outside the model (C13, C14): ASSUMED.
+//@ func (*StateDB).getWithdrawQueue props C09
+//@ nobody
+//@ requires st != nil
+//@ modifies st.withdrawQueue, st.dbErr
+//@ ensures old(hastype(st.withdrawQueue.v, *WithdrawQueue)) && old(st.withdrawQueue.v) != nil ==>
+//@     result0 == unbox(old(st.withdrawQueue.v), *WithdrawQueue) && result1 == nil && st.withdrawQueue.v == old(st.withdrawQueue.v) && st.dbErr == old(st.dbErr)
+
+// --- storage mutator -------------------------------------------------------------------------------------------------
+// Committed (non-dirty) slot values come from pending/origin storage or the storage trie (C13): ASSUMED thin frame.
+//@ func (*stateObject).GetCommittedState props C09
+//@ nobody
+//@ requires so != nil
+//@ modifies so.dbErr, so.trie, mapof(so.originStorage)
+
+//@ func (*stateObject).GetState props C09
+//@ panics none
+//@ requires so != nil
+//@ modifies so.dbErr, so.trie, mapof(so.originStorage)
+//@ ensures [dirty] old(in(key, so.dirtyStorage)) ==> result == old(so.dirtyStorage[key]) && so.dbErr == old(so.dbErr) && so.trie == old(so.trie) &&
+//@     mapdom(so.originStorage) == old(mapdom(so.originStorage)) && mapval(so.originStorage) == old(mapval(so.originStorage))
+
+// SetState: a real change of a slot appends one storageChange carrying the slot's key and previous value, then stores the new value.
+// (Previous value decided for slots with a dirty value; for clean slots it is whatever GetCommittedState returned.)
+//@ func (*stateObject).SetState props C09
+//@ panics none
+//@ requires so != nil && so.db != nil && c09JournalWF(so.db.journal) && so.dirtyStorage != nil && so.dirtyStorage != so.originStorage
+//@ let j = so.db.journal
+//@ modifies so.dbErr, so.trie, mapof(so.originStorage), mapof(so.dirtyStorage), j.entries, elems(j.entries), mapof(j.dirties)
+//@ ensures [journalled] old(in(key, so.dirtyStorage)) && old(so.dirtyStorage[key]) != value ==>
+//@     len(j.entries) == old(len(j.entries)) + 1 && hastype(c09Last(j), storageChange) && *unbox(c09Last(j), storageChange).account == so.address &&
+//@     unbox(c09Last(j), storageChange).key == key && unbox(c09Last(j), storageChange).prevalue == old(so.dirtyStorage[key])
+//@ ensures [same-value-noop] old(in(key, so.dirtyStorage)) && old(so.dirtyStorage[key]) == value ==>
+//@     len(j.entries) == old(len(j.entries)) && mapdom(so.dirtyStorage) == old(mapdom(so.dirtyStorage)) && mapval(so.dirtyStorage) == old(mapval(so.dirtyStorage))
+//@ ensures [set] len(j.entries) == old(len(j.entries)) + 1 ==> in(key, so.dirtyStorage) && so.dirtyStorage[key] == value
+//@ ensures [one-entry-at-most] len(j.entries) == old(len(j.entries)) || (len(j.entries) == old(len(j.entries)) + 1 && hastype(c09Last(j), storageChange) && unbox(c09Last(j), storageChange).key == key)
+//@ ensures [wf] c09JournalWF(j)
+
+// --- code ------------------------------------------------------------------------------------------------------------
+// revert of SetCode: the previous code is the object's code again and the code hash is a fresh 32-byte value built from the recorded
+// hash (common.BytesToHash; that its bytes equal the recorded ones is byte-copy arithmetic, not decided here).
+//@ func (codeChange).revert props C09
+//@ panics none
+//@ requires s != nil && s.stateObjects != nil && ch.account != nil && c09Live(s, *ch.account)
+//@ let obj = s.stateObjects[*ch.account]
+//@ modifies s.dbErr, mapof(s.stateObjects), obj.code, obj.data.CodeHash, obj.dirtyCode
+//@ ensures [restored] obj.code == ch.prevcode && len(obj.data.CodeHash) == 32 && obj.dirtyCode
+//@ ensures [objects-kept] mapdom(s.stateObjects) == old(mapdom(s.stateObjects)) && mapval(s.stateObjects) == old(mapval(s.stateObjects)) && s.dbErr == old(s.dbErr)
+//@ ensures [book-kept] c09BookKept(s)
+
+// --- remaining mutators ------------------------------------------------------------------------------------------------
+//@ func (*StateDB).AddPreimage props C09
+//@ panics none
+//@ opt abstract-slices
+//@ requires st != nil && c09JournalWF(st.journal) && st.preimages != nil
+//@ let j = st.journal
+//@ modifies mapof(st.preimages), j.entries, elems(j.entries), mapof(j.dirties)
+//@ ensures [journalled] !old(in(hash, st.preimages)) ==> len(j.entries) == old(len(j.entries)) + 1 && hastype(c09Last(j), addPreimageChange) &&
+//@     unbox(c09Last(j), addPreimageChange).hash == hash && in(hash, st.preimages)
+//@ ensures [known-noop] old(in(hash, st.preimages)) ==> len(j.entries) == old(len(j.entries)) && mapdom(st.preimages) == old(mapdom(st.preimages)) && mapval(st.preimages) == old(mapval(st.preimages))
+//@ ensures [wf] c09JournalWF(j)
+
+// AddWithdrawRecord: the record is queued and one validatorAddUBDChange pointing to it is journalled (validator journal).
+//@ func (*StateDB).AddWithdrawRecord props C09
+//@ panics none
+//@ requires st != nil && c09JournalWF(st.validatorJournal) && record != nil
+//@ requires [queue-loaded] hastype(st.withdrawQueue.v, *WithdrawQueue) && unbox(st.withdrawQueue.v, *WithdrawQueue) != nil
+//@ let j = st.validatorJournal
+//@ let q = unbox(st.withdrawQueue.v, *WithdrawQueue)
+//@ modifies st.withdrawQueue, st.dbErr, q.Records, elems(q.Records), j.entries, elems(j.entries), mapof(j.dirties)
+//@ ensures [queued] len(q.Records) == old(len(q.Records)) + 1 && q.Records[len(q.Records) - 1] == record
+//@ ensures [journalled] len(j.entries) == old(len(j.entries)) + 1 && hastype(c09Last(j), *validatorAddUBDChange) &&
+//@     unbox(c09Last(j), *validatorAddUBDChange) != nil && unbox(c09Last(j), *validatorAddUBDChange).prev == record
+//@ ensures [wf] c09JournalWF(j)
